@@ -1,5 +1,6 @@
 import Driver.Loop
 import Driver.SdlCodec
+import PyGqlModel.SdlExtend
 open PyGql PyGql.Sdl
 
 def handleC11 (j : J) : J :=
@@ -10,6 +11,26 @@ def handleC11 (j : J) : J :=
     match build doc (j.boolD "ignore_extensions") add with
     | .ok s => .obj [("ok", Driver.schemaToJson s)]
     | .error e => .obj [("err", Driver.errToJson e)]
+  | "extend" =>
+    -- extend_schema(build_schema(doc), ext, strict)
+    let docA := Driver.docOfJson j
+    let docB := (j.arrD "ext").map Driver.defOfJson
+    match buildThenExtend docA docB (j.boolD "strict") with
+    | .error e => .obj [("base", Driver.errToJson e)]
+    | .ok (.ok s) => .obj [("ok", Driver.schemaToJson s)]
+    | .ok (.error e) => .obj [("err", Driver.errToJson e)]
+  | "collect_ext" =>
+    -- _collect_extensions(build_schema(doc), ext, strict): accepted or not, and what is kept
+    let docA := Driver.docOfJson j
+    let docB := (j.arrD "ext").map Driver.defOfJson
+    match build docA with
+    | .error e => .obj [("base", Driver.errToJson e)]
+    | .ok s =>
+      let live : Live := { types := s.types, directives := s.directives, roots := ⟨s.query, s.mutation, s.subscription⟩ }
+      match collectExtensions live docB (j.boolD "strict") with
+      | .error e => .obj [("err", Driver.errToJson e)]
+      | .ok c => .obj [("ok", .obj [("types", J.ofStrs (c.typeDefs.map (·.name))), ("directives", J.ofStrs (c.dirDefs.map (·.name))),
+                                     ("exts", J.ofStrs (c.typeExts.map (·.name))), ("schema_exts", J.ofNat c.schemaExts.length)])]
   | _ => .obj [("error", .str "bad-op")]
 
 def main : IO Unit := Driver.run handleC11
